@@ -98,6 +98,10 @@ fn main() {
                     println!("  {}", f.msg);
                     1
                 }
+                ReplayOutcome::Timeout(t) => {
+                    println!("INCONCLUSIVE replay of {} did not finish within {t} s", path.display());
+                    2
+                }
                 ReplayOutcome::Crash(c) => {
                     let rf: ReplayFile = serde_json::from_str(
                         &std::fs::read_to_string(&path).unwrap(),
